@@ -114,7 +114,7 @@ def one_case(ctx, kind, inp, user_seed, nregen, check_model=True):
                 wf = ctx.km.call("wf_fresh", [l.encode("utf-8", "surrogateescape") for l in ls]) == b"1"
                 ctx.count("wf_fresh_true" if wf else "wf_fresh_false")
                 if not wf:
-                    ctx.wf_false.append((kind, inp.get("name"), fn))
+                    ctx.wf_false.append((kind, inp.get("name"), os.path.basename(fn)))
         user = presv.user_blocks(rng, t0, density=rng.choice([0.3, 0.7, 1.0]))
         t1 = splice(t0, user)
         write_tree(out, t1)
@@ -146,7 +146,7 @@ def one_case(ctx, kind, inp, user_seed, nregen, check_model=True):
 def finding_key(kind, inp, bad, now, expected):
     if not bad:
         return "%s:returned-list" % kind
-    f = bad[0]
+    f = os.path.basename(bad[0])
     return "%s:%s:%s" % (kind, inp.get("name"), f)
 
 
